@@ -455,6 +455,13 @@ func (n *ForNode) renderForLoop(w io.Writer, ctx *RenderContext, seq interface{}
 	// Update loop.length
 	loopVars["loop"].(map[string]interface{})["length"] = length
 
+	// An enclosing loop keeps its own counters: put its "loop" back when this loop ends
+	if outerLoop, ok := loopCtx.context["loop"]; ok {
+		defer loopCtx.SetVariable("loop", outerLoop)
+	} else {
+		defer delete(loopCtx.context, "loop")
+	}
+
 	// Iterate based on the type
 	switch val.Kind() {
 	case reflect.Slice, reflect.Array:
